@@ -630,4 +630,24 @@ def no_memo(repo: Repo) -> RuleRun:
 
 no_memo.rule_id = "C08.NO-MEMO"
 
-RULES = [trig_domain, arg_pairing, affine_kinds, sign_flows, circumcentre, reflex_decision, reflex_midpoint, adjust_only_when_needed, validity_tolerance, no_memo]
+def edge_ends(repo: Repo) -> RuleRun:
+    """'...the three-point arc ... on the intended side': an angle-and-axis arc is directed from the first to the second vertex it was given with; EdgeList keeps that order for every new edge. Same rule as C07.DEDUP."""
+    from ..report import rebrand
+    from . import c07
+
+    return rebrand(c07.dedup(repo), PROP, "C08.EDGE-ENDS")
+
+
+edge_ends.rule_id = "C08.EDGE-ENDS"
+
+
+def arguments_untouched(repo: Repo) -> RuleRun:
+    """'the arc the specification describes' - every time it is asked for: converting an Angle edge does not modify the stored axis / angle it was handed. Same rule as C09.ARGUMENTS-UNTOUCHED."""
+    from ..alias import argument_mutation_rule
+
+    return argument_mutation_rule(repo, PROP, "C08.ARGUMENTS-UNTOUCHED")
+
+
+arguments_untouched.rule_id = "C08.ARGUMENTS-UNTOUCHED"
+
+RULES = [trig_domain, arg_pairing, affine_kinds, sign_flows, circumcentre, reflex_decision, reflex_midpoint, adjust_only_when_needed, validity_tolerance, no_memo, edge_ends, arguments_untouched]
